@@ -185,4 +185,43 @@ theorem Session.mem_bcastTo {s : Session} {sender : Nat} {m : Out} {pids : List 
     · have := hi'.2; rw [hpi]; simpa using this
     · rw [hpi]; exact mem_dedupNat.mp hi'.1
 
+theorem Session.count_bcast_ne (s : Session) (sender c : Nat) (m m' : Out) (h : m' ≠ m) :
+    countTo c m' (s.bcast sender m) = 0 := by
+  unfold countTo; rw [List.count_eq_zero]
+  intro hm; exact h (Session.mem_bcast hm).1
+
+theorem Session.setAction_parts (s : Session) (a : Action) : (s.setAction a).parts = s.parts := by
+  unfold Session.setAction; split <;> rfl
+
+theorem Session.setAsset_parts (s : Session) (a : Asset) : (s.setAsset a).parts = s.parts := by
+  unfold Session.setAsset; split <;> rfl
+
+end Hagall
+
+namespace Hagall
+
+theorem Session.bcast_congr {s t : Session} (h : t.parts = s.parts) (a : Nat) (m : Out) : t.bcast a m = s.bcast a m := by
+  unfold Session.bcast; rw [h]
+
+/-- counting in a `flatMap` over a duplicate-free list when only the key `k` can produce `d` -/
+theorem count_flatMap_unique {β : Type} [BEq β] [LawfulBEq β] (L : List Nat) (hL : L.Nodup) (f : Nat → List β) (d : β) (k : Nat)
+    (hf : ∀ i, i ≠ k → d ∉ f i) : (L.flatMap f).count d = if k ∈ L then (f k).count d else 0 := by
+  induction L with
+  | nil => simp
+  | cons x xs ih =>
+    simp only [List.nodup_cons] at hL
+    simp only [List.flatMap_cons, List.count_append, ih hL.2]
+    by_cases hx : x = k
+    · subst hx
+      simp [hL.1]
+    · have h0 : (f x).count d = 0 := List.count_eq_zero.mpr (hf x hx)
+      have hk : (k ∈ x :: xs) ↔ k ∈ xs := by
+        simp only [List.mem_cons]
+        constructor
+        · rintro (h | h)
+          · exact absurd h.symm hx
+          · exact h
+        · exact Or.inr
+      simp [h0, hk]
+
 end Hagall
